@@ -4,7 +4,9 @@
 mod common;
 mod run_bfv;
 mod run_bitvec;
+mod run_lender;
 mod run_ranksel;
+mod run_sigstore;
 
 use common::*;
 use std::path::PathBuf;
@@ -64,6 +66,10 @@ fn main() {
         ("bitvec", Some(l)) => run_bitvec::replay(&mut ctx, l),
         ("ranksel", None) => run_ranksel::run(&mut ctx),
         ("ranksel", Some(l)) => run_ranksel::replay(&mut ctx, l),
+        ("lender", None) => run_lender::run(&mut ctx),
+        ("lender", Some(l)) => run_lender::replay(&mut ctx, l),
+        ("sigstore", None) => run_sigstore::run(&mut ctx),
+        ("sigstore", Some(l)) => run_sigstore::replay(&mut ctx, l),
         ("bfv", None) => run_bfv::run(&mut ctx),
         ("bfv", Some(l)) => run_bfv::replay(&mut ctx, l),
         (r, _) => {
